@@ -368,6 +368,33 @@ def Session.apply (s : Session) : Event → Session
 def Session.view (s : Session) (roi : Option Obj) : Diagram :=
   diagram s.opts s.mach s.styles (roi.map (readState s.opts.modelAttr))
 
+/-! ### `model_graphs`: one graph per model, keyed by `id(model)` -/
+
+/-- `machine.model_graphs` (a dict keyed by `id(model)`): the first entry for a key is the current one -/
+abbrev Store := List (Nat × Styles)
+
+def Store.get (k : Nat) : Store → Styles
+  | [] => {}
+  | (k', s) :: r => if k' = k then s else Store.get k r
+
+def Store.set (k : Nat) (s : Styles) (st : Store) : Store := (k, s) :: st
+
+/-- machine-level events on the store. `id`s may be reused: the same object re-attached, or a new
+object allocated at the address of a collected one. -/
+inductive MEvent
+  /-- `add_model(model)`: `get_graph(force_new=True)` — a NEW graph styled for the model's state -/
+  | addModel (id : Nat) (m : Obj)
+  /-- `remove_model(model)`: the entry of `model_graphs` is left where it is -/
+  | removeModel (id : Nat)
+  /-- a graph event of the model with this id -/
+  | graph (id : Nat) (s : ObjStep)
+  deriving Repr, Inhabited
+
+def storeStep (attr : Nat) (st : Store) : MEvent → Store
+  | .addModel id m => st.set id (({} : Styles).setNodes (readState attr m) 1)
+  | .removeModel _ => st
+  | .graph id g => st.set id (applyStep (st.get id) (g.resolve attr))
+
 /-! ### observations on diagrams (used by the property statements) -/
 
 mutual
